@@ -47,6 +47,19 @@ partial def loop (h : IO.FS.Stream) (c : Case) : IO Unit := do
     loop h { c with outs := mkOut row.toInt! ⟨us.toInt!, off.toInt!⟩ acct.toNat! (typOf typ) price.toInt! amt.toInt! fee.toInt! (optInt owf) (optInt fnf) (optInt ff) :: c.outs }
   | ["INTRA", row, us, off, src, dst, price, sent, recv] =>
     loop h { c with intras := mkIntra row.toInt! ⟨us.toInt!, off.toInt!⟩ src.toNat! dst.toNat! price.toInt! sent.toInt! recv.toInt! :: c.intras }
+  | ["D", op, a, b] =>
+    let parse (t : String) : Rat := match t.splitOn "/" with
+      | [n, d] => (n.toInt! : Rat) / (d.toNat! : Rat)
+      | _ => 0
+    let x := parse a; let y := parse b
+    let out : String := match op with
+      | "add" => showRat (dadd x y) | "sub" => showRat (dsub x y) | "mul" => showRat (dmul x y)
+      | "div" => if y = 0 then "div0" else showRat (ddiv x y)
+      | "q13" => showRat (quant 13 x) | "q10" => showRat (quant 10 x) | "q11" => showRat (quant 11 x)
+      | "gt" => (if gt13 x y then "1" else "0") | "eq" => (if eq13 x y then "1" else "0")
+      | _ => "bad-op"
+    IO.println out
+    loop h c
   | ["RUN"] =>
     for l in runCase c do IO.println l
     IO.println "END"
